@@ -36,31 +36,40 @@ fn reference<G: SymGroup, const N: usize>(h: G, gs: &[G; N], m: &[Scalar; N], r:
 
 fn one<G: SymGroup + GroupEncoding + SerializeElement, const N: usize>(seed: u64) {
     let tag = format!("{}/N={}", G::GNAME, N);
-    // ---- (1) exact map, (2) verify_opening <=> equality, both outcomes
-    for want in [true, false] {
-        sx::begin(vec![want], DrawMode::NonDegenerate, seed);
+    // ---- (1) exact map
+    {
+        sx::begin(vec![], DrawMode::NonDegenerate, seed);
         let h = G::sym("h");
         let gs: [G; N] = sym_elems("g");
         let params = PedersenParameters::from_generators(h, gs);
         let m: [Scalar; N] = sym_scalars("m");
         let r = sym_scalar("r");
         let com = Message::new(m).commit(&params, bf_of(r));
-        let refv = reference(h, &gs, &m, r);
-        if want {
-            eng::prove(&format!("C09 map {}: commit == h^r*prod g_i^m_i", tag), "C09 commitment-map", &eq(com.to_element().dlog(), refv));
-        }
-        // arbitrary commitment value c, arbitrary opening
-        let c = G::sym("c");
-        let n0 = sx::n_decisions();
-        let res = commitment_of(c).verify_opening(&params, bf_of(r), &Message::new(m));
-        let ds = decisions_since(n0);
-        if ds.len() != 1 {
-            eng::finding("C09 verify-opening-shape", &format!("{}: verify_opening made {} decisions, expected one equality", tag, ds.len()), None, json!({"kind":"none"}));
-        }
-        // result is exactly the reference equality
-        let goal = F::iff(if res { F::True } else { F::False }, eq(c.dlog(), refv));
-        eng::prove(&format!("C09 verify_opening({}) <=> recomputed == given  {}", res, tag), "C09 verify-opening-exact", &goal);
+        eng::prove(&format!("C09 map {}: commit == h^r*prod g_i^m_i", tag), "C09 commitment-map", &eq(com.to_element().dlog(), reference(h, &gs, &m, r)));
         eng::path_done();
+    }
+    // ---- (2) verify_opening on an arbitrary commitment value and an arbitrary opening: every path (any comparison the
+    //          implementation makes may go either way), result <=> recomputed == given
+    let st = explore(DrawMode::NonDegenerate, seed, 3, 256, &["verify"], |p| {
+        let h = G::sym("h");
+        let gs: [G; N] = sym_elems("g");
+        let params = PedersenParameters::from_generators(h, gs);
+        let m: [Scalar; N] = sym_scalars("m");
+        let r = sym_scalar("r");
+        let c = G::sym("c");
+        let refv = reference(h, &gs, &m, r);
+        sx::set_label("verify");
+        let res = commitment_of(c).verify_opening(&params, bf_of(r), &Message::new(m));
+        if !path_feasible(&format!("C09 verify_opening {}", tag), p) {
+            return;
+        }
+        eng::prove(&format!("C09 verify_opening({}) <=> recomputed == given  {} path {:?}", res, tag, p.flips), "C09 verify-opening-exact", &F::iff(tf(res), eq(c.dlog(), refv)));
+    });
+    if st.paths < 2 {
+        eng::inconclusive(&format!("C09 verify_opening {}: fewer than two paths explored", tag));
+    }
+    for (p, m) in st.panics {
+        eng::inconclusive(&format!("C09 verify_opening {} panicked on path {:?}: {}", tag, p, m));
     }
     // ---- (3) original opening accepted for all values
     {
